@@ -33,6 +33,9 @@ func genC04(t *rapid.T) c04Case {
 			genVegasFns(t, &c.Cfg) // documented constructor options; the bounds are the update path's job, not the functions'
 		}
 	}
+	if !(c.Cfg.Algo == "aimd" && c.Cfg.Initial > 1<<20) {
+		genUnset(t, &c.Cfg) // short constructors and parameters left to the library's defaults
+	}
 	c.Samples = genSamples(t, c.Cfg, 400)
 	return c
 }
@@ -44,15 +47,33 @@ func safeSample(b built, s Sample, inf int) (pan any) {
 }
 
 func runC04(_ *testing.T, c c04Case) kit.Outcome {
-	b := buildLimit(c.Cfg, nil)
+	b, err := tryBuildLimit(c.Cfg, nil)
+	if err != nil {
+		return kit.Outcome{Labels: []string{"discard:constructor-rejects-defaults-mix"}}
+	}
 	floor := c.Cfg.floorOf()
-	ceil := maxInt(c.Cfg.Max, c.Cfg.Initial)
+	initial := b.Outer.EstimatedLimit()
+	if c.Cfg.known("initial") && initial != c.Cfg.Initial {
+		return kit.Viol(c.Cfg.Algo+":initial", "estimate right after construction = %d, configured initial = %d", initial, c.Cfg.Initial)
+	}
+	if initial < 1 {
+		return kit.Viol(c.Cfg.Algo+":initial", "estimate right after construction = %d (defaults in play: ctor=%q unset=%v)", initial, c.Cfg.Ctor, c.Cfg.Unset)
+	}
+	if initial < floor {
+		// the library's default initial value lies below the configured minimum: not a valid configuration (min <= initial)
+		return kit.Outcome{Labels: []string{"discard:default-initial-below-min"}}
+	}
+	ceil := maxInt(c.Cfg.Max, initial)
+	if !c.Cfg.known("max") {
+		ceil = maxInt(sanityCeil, initial) // the effective maximum is the library's default: only a sanity ceiling
+	}
+	incr := c.Cfg.IncreaseBy
+	if c.Cfg.Algo == "aimd" && c.Cfg.Ctor == "default" {
+		incr = sanityCeil
+	}
 	maxInf := 0
 	var sawZero, sawDrop, sawSat bool
 	changes := 0
-	if e := b.Outer.EstimatedLimit(); e != c.Cfg.Initial {
-		return kit.Viol(c.Cfg.Algo+":initial", "estimate right after construction = %d, configured initial = %d", e, c.Cfg.Initial)
-	}
 	for i, s := range c.Samples {
 		before := b.Outer.EstimatedLimit()
 		inf := s.inflight(before)
@@ -65,7 +86,7 @@ func runC04(_ *testing.T, c c04Case) kit.Outcome {
 		after := b.Outer.EstimatedLimit()
 		hi := ceil
 		if c.Cfg.Algo == "aimd" {
-			hi = maxInt(c.Cfg.Initial, maxInf+c.Cfg.IncreaseBy)
+			hi = maxInt(initial, maxInf+incr)
 		}
 		if after < floor || after > hi {
 			return kit.Viol(c.Cfg.Algo+":bounds", "after sample %d %+v (in-flight %d): estimate %d -> %d outside [%d,%d]", i, s, inf, before, after, floor, hi)
@@ -87,6 +108,12 @@ func runC04(_ *testing.T, c c04Case) kit.Outcome {
 	}
 	if sawZero {
 		out.Labels = append(out.Labels, "rtt0")
+	}
+	if c.Cfg.Ctor != "" {
+		out.Labels = append(out.Labels, "ctor:"+c.Cfg.Ctor)
+	}
+	if len(c.Cfg.Unset) > 0 {
+		out.Labels = append(out.Labels, "unset-params")
 	}
 	if c.Cfg.VAlpha+c.Cfg.VBeta+c.Cfg.VThr+c.Cfg.VInc+c.Cfg.VDec != "" {
 		out.Labels = append(out.Labels, "vegas-custom-fns")
